@@ -50,7 +50,9 @@ class C12(Check):
     pid = "C12"
     level = "exploration"
     engine = "compsim"
-    rule = ("one evaluation = one sample() call of the real BaseSampler.sample on a scripted generator: history (possibly with "
+    rule = ("one evaluation = one sample() call (a quarter of the cases: two or three calls on the same sampler object, with another "
+            "history of the same length, a grown one or the same one; a fifth: the object goes through pickle before/between calls) of "
+            "the real BaseSampler.sample on a scripted generator: history (possibly with "
             "repeats), batch size 1-6, 1-3 dims, pass budget 0-6, script mixing fresh points / repeats of history / repeats "
             "within the batch / repeats of earlier redraws; non-trivial = at least one redraw happened; distinct = distinct "
             "(batch size, dims, budget, request-size sequence, exhausted?)")
